@@ -318,6 +318,9 @@ class C12(runner.Check):
 					m["pwm"] = gen_pwm(r, len(m["pwm"][0]))
 			if mode in ("eps", "both"):
 				w2["cfg"]["eps"] = 1e-2 if world["cfg"]["eps"] != 1e-2 else 1e-4
+			if w2["cfg"]["eps"] == 0 and any(v <= 0 for m in w2["motifs"] for row in m["pwm"]
+					for v in row):
+				w2["cfg"]["eps"] = 1e-4          # eps = 0 is only legal without exact zeros
 			case["world2"] = w2
 		s = S("schedule")
 		if leg == "sim":
